@@ -46,6 +46,7 @@ var localExcluded = map[string]bool{
 	"wgsl.template.gteq":            true, // C19-3
 	"wgsl.const_assert.paren":       true, // C19-4
 	"wgsl.template.trailing-comma":  true, // C19-5
+	"wgsl.bitcast.trailing-comma":   true, // C19-6
 }
 
 // classTag maps an edit class of package meta to the exclusion tag of the
@@ -59,7 +60,8 @@ var classTag = map[string]string{
 	"paren.const_assert":  "wgsl.const_assert.paren",
 	"comma.tmpl.var":      "wgsl.template.trailing-comma",
 	"comma.tmpl.ptr":      "wgsl.template.trailing-comma",
-	"comma.tmpl.bitcast":  "wgsl.template.trailing-comma",
+	"comma.tmpl.bitcast":  "wgsl.bitcast.trailing-comma",
+	"comma.call.bitcast":  "wgsl.bitcast.trailing-comma",
 	"comma.tmpl.nested":   "wgsl.template.trailing-comma",
 }
 
@@ -372,45 +374,69 @@ func judgeNeutral(raw json.RawMessage) (bool, string) {
 	if err := json.Unmarshal(raw, &c); err != nil {
 		return false, "bad case: " + err.Error()
 	}
-	return judge(&c, observe(c.Source))
+	v, msg := judge(&c, observe(c.Source))
+	return v != "fail", msg
 }
 
-func judge(c *Case, before outcome) (bool, string) {
+// judge returns "ok", "fail" or "unstable".  "unstable" means that compiling
+// one and the same text twice gave different results, so the difference seen
+// cannot be attributed to the edit (determinism is property C12's business).
+func judge(c *Case, before outcome) (string, string) {
 	after := observe(c.Edited)
+	msg := compare(c, &before, &after)
+	if msg == "" {
+		return "ok", ""
+	}
+	for try := 0; try < 6; try++ {
+		b2, a2 := observe(c.Source), observe(c.Edited)
+		if compare(&Case{}, &before, &b2) != "" || compare(&Case{}, &after, &a2) != "" ||
+			compare(c, &b2, &a2) == "" || compare(c, &before, &a2) == "" {
+			return "unstable", "compiling the same text twice gives different results; first seen as: " + msg
+		}
+	}
+	return "fail", msg
+}
+
+// compare returns "" when after is an admissible result for an edit of before.
+func compare(c *Case, beforeP, afterP *outcome) string {
+	before, after := *beforeP, *afterP
 	if before.Stage != after.Stage {
-		return false, fmt.Sprintf("acceptance changed: before %s (%s), after %s (%s)", before.Stage, cutS(before.Err), after.Stage, cutS(after.Err))
+		return fmt.Sprintf("acceptance changed: before %s (%s), after %s (%s)", before.Stage, cutS(before.Err), after.Stage, cutS(after.Err))
 	}
 	if before.Stage != "ok" {
-		return true, ""
+		return ""
 	}
-	if before.Module == nil && (before.Hash != after.Hash || before.HashNN != after.HashNN) {
-		before.Module, _, _ = lowerFresh(c.Source) // the baseline cache drops modules
-	}
-	if c.Rename {
-		if before.HashNN != after.HashNN {
-			d := ""
-			if before.Module != nil && after.Module != nil {
-				d = irx.DiffNoNames(before.Module, after.Module)
-			}
-			return false, "lowered module differs beyond names after renaming: " + cutS(d)
+	// "identical up to the chosen names and source positions": names are never part of the module comparison
+	if before.HashNN != after.HashNN {
+		if before.Module == nil {
+			before.Module, _, _ = lowerFresh(c.Source) // the baseline cache drops modules
 		}
-	} else if before.Hash != after.Hash {
+		d := ""
+		if before.Module != nil && after.Module != nil {
+			d = irx.DiffNoNames(before.Module, after.Module)
+		}
+		return "lowered module differs beyond names: " + cutS(d)
+	}
+	if !c.Rename && before.Hash != after.Hash {
+		if before.Module == nil {
+			before.Module, _, _ = lowerFresh(c.Source)
+		}
 		d := ""
 		if before.Module != nil && after.Module != nil {
 			d = irx.Diff(before.Module, after.Module)
 		}
-		return false, "lowered module differs: " + cutS(d)
+		return "lowered module differs in names although nothing was renamed: " + cutS(d)
 	}
 	if len(before.Backends) != len(after.Backends) {
-		return false, fmt.Sprintf("number of backend outputs differs: %d / %d", len(before.Backends), len(after.Backends))
+		return fmt.Sprintf("number of backend outputs differs: %d / %d", len(before.Backends), len(after.Backends))
 	}
 	for i, b := range before.Backends {
 		a := after.Backends[i]
 		if b.Name != a.Name {
-			return false, fmt.Sprintf("backend output %d is %s before and %s after", i, b.Name, a.Name)
+			return fmt.Sprintf("backend output %d is %s before and %s after", i, b.Name, a.Name)
 		}
 		if (b.Err == "") != (a.Err == "") || strings.HasPrefix(b.Err, "panic") != strings.HasPrefix(a.Err, "panic") {
-			return false, fmt.Sprintf("%s outcome changed: before %q, after %q", b.Name, cutS(b.Err), cutS(a.Err))
+			return fmt.Sprintf("%s outcome changed: before %q, after %q", b.Name, cutS(b.Err), cutS(a.Err))
 		}
 		if b.Err != "" {
 			continue
@@ -419,17 +445,17 @@ func judge(c *Case, before outcome) (bool, string) {
 		if c.Rename {
 			if b.Name != "spirv" {
 				if ok, why := alphaEqual(x, y); !ok {
-					return false, fmt.Sprintf("%s output differs beyond names: %s", b.Name, why)
+					return fmt.Sprintf("%s output differs beyond names: %s", b.Name, why)
 				}
 				continue
 			}
 			x, y = canonSPIRV(x), canonSPIRV(y)
 		}
 		if !bytes.Equal(x, y) {
-			return false, fmt.Sprintf("%s output differs; %s", b.Name, firstDiff(x, y))
+			return fmt.Sprintf("%s output differs; %s", b.Name, firstDiff(x, y))
 		}
 	}
-	return true, ""
+	return ""
 }
 
 func cutS(s string) string {
@@ -490,8 +516,12 @@ func propNeutral(t *rapid.T) {
 	} else {
 		before = observe(c.Source)
 	}
-	ok, msg := judge(c, before)
-	ev.Eval(caseHash(c), nontrivial(c) && before.Stage == "ok")
+	verdict, msg := judge(c, before)
+	ok := verdict != "fail"
+	if verdict == "unstable" {
+		ev.Class("unchecked:nondeterministic-compile")
+	}
+	ev.Eval(caseHash(c), nontrivial(c) && before.Stage == "ok" && verdict == "ok")
 	ev.Class("origin:" + strings.SplitN(c.Origin, ":", 2)[0])
 	ev.Class("baseline:" + before.Stage)
 	for _, d := range c.Edits {
@@ -554,9 +584,9 @@ func FuzzNeutral(f *testing.F) {
 				}
 			}
 			before := *observeCached(src)
-			ok, msg := judge(c, before)
-			ev.Eval(caseHash(c), nontrivial(c) && before.Stage == "ok")
-			if !ok {
+			verdict, msg := judge(c, before)
+			ev.Eval(caseHash(c), nontrivial(c) && before.Stage == "ok" && verdict == "ok")
+			if verdict == "fail" {
 				ev.Fail("neutral", c, msg)
 				ev.Flush()
 				rt.Fatalf("%s", msg)
